@@ -31,13 +31,16 @@ impl PartialEq for Color {
 impl Ord for Color {
     fn cmp(&self, other: &Self) -> std::cmp::Ordering {
         match (self, other) {
-            (Color::Hsla(a), Color::Hsla(b)) => a.partial_cmp(b).unwrap(),
-            (Color::Hsla(a), Color::Hwba(b)) => {
-                a.partial_cmp(&Hsla::from(b)).unwrap()
+            // Channels that are NaN don't compare; such colors are not equal.
+            (Color::Hsla(a), Color::Hsla(b)) => {
+                a.partial_cmp(b).unwrap_or(std::cmp::Ordering::Less)
             }
-            (Color::Hwba(a), Color::Hsla(b)) => {
-                Hsla::from(a).partial_cmp(b).unwrap()
-            }
+            (Color::Hsla(a), Color::Hwba(b)) => a
+                .partial_cmp(&Hsla::from(b))
+                .unwrap_or(std::cmp::Ordering::Less),
+            (Color::Hwba(a), Color::Hsla(b)) => Hsla::from(a)
+                .partial_cmp(b)
+                .unwrap_or(std::cmp::Ordering::Less),
             (a, b) => a.to_rgba().cmp(&b.to_rgba()),
         }
     }
